@@ -23,6 +23,7 @@ import (
 	"path/filepath"
 	"regexp"
 	"sort"
+	"strconv"
 	"strings"
 )
 
@@ -72,6 +73,55 @@ func (p *pkgInfo) stmtsText(ss []ast.Stmt) string {
 		parts = append(parts, p.text(s))
 	}
 	return failRe.ReplaceAllString(strings.Join(parts, " ; "), "FAIL($1)")
+}
+
+// canonText is stmtsText after renaming the local variables declared inside the statements to $1, $2 …
+// (in order of declaration) and replacing identifiers of string constants by their value, so that a
+// special body is recognised whatever its locals are called and whether a layout is a literal or a
+// named constant.
+func (p *pkgInfo) canonText(ss []ast.Stmt) string {
+	if len(ss) == 0 {
+		return ""
+	}
+	lo, hi := ss[0].Pos(), ss[len(ss)-1].End()
+	names := map[types.Object]string{}
+	var touched []*ast.Ident
+	var saved []string
+	rename := func(id *ast.Ident, to string) {
+		touched = append(touched, id)
+		saved = append(saved, id.Name)
+		id.Name = to
+	}
+	for _, s := range ss {
+		ast.Inspect(s, func(n ast.Node) bool {
+			id, ok := n.(*ast.Ident)
+			if !ok || id.Name == "_" {
+				return true
+			}
+			if obj := p.info.Defs[id]; obj != nil {
+				if _, isVar := obj.(*types.Var); isVar && obj.Pos() >= lo && obj.Pos() < hi {
+					if _, seen := names[obj]; !seen {
+						names[obj] = fmt.Sprintf("$%d", len(names)+1)
+					}
+					rename(id, names[obj])
+				}
+				return true
+			}
+			if obj := p.info.Uses[id]; obj != nil {
+				if nm, ok := names[obj]; ok {
+					rename(id, nm)
+				} else if c, ok := obj.(*types.Const); ok && c.Val().Kind() == constant.String && obj.Pkg() == p.pkg {
+					rename(id, strconv.Quote(constant.StringVal(c.Val())))
+				}
+			}
+			return true
+		})
+	}
+	txt := p.stmtsText(ss)
+	for i, id := range touched {
+		id.Name = saved[i]
+	}
+	return txt
 }
 
 func lstr(s string) string {
@@ -149,9 +199,86 @@ type castX struct {
 	p        *pkgInfo
 	specials map[string]string // normalised body text -> special id
 	binds    map[string]string // identifiers bound by an if-statement's init (`year := val.Year()`) -> their translation
+	cbinds   map[string]string // parameters of an inlined helper bound to integer constants
+	funcs    map[string]*ast.FuncDecl
+	depth    int
+}
+
+// helper returns the package-level function `name` when it is a one-statement helper `return <expr>`.
+func (x *castX) helper(fun ast.Expr) (*ast.FuncDecl, ast.Expr) {
+	id, ok := fun.(*ast.Ident)
+	if !ok {
+		return nil, nil
+	}
+	if x.funcs == nil {
+		x.funcs = map[string]*ast.FuncDecl{}
+		for _, f := range x.p.files {
+			for _, d := range f.Decls {
+				if fd, ok := d.(*ast.FuncDecl); ok && fd.Recv == nil && fd.Body != nil {
+					x.funcs[fd.Name.Name] = fd
+				}
+			}
+		}
+	}
+	fd := x.funcs[id.Name]
+	if fd == nil || len(fd.Body.List) != 1 {
+		return nil, nil
+	}
+	r, ok := fd.Body.List[0].(*ast.ReturnStmt)
+	if !ok || len(r.Results) != 1 {
+		return nil, nil
+	}
+	return fd, r.Results[0]
+}
+
+func paramNames(fd *ast.FuncDecl) []string {
+	var ps []string
+	for _, f := range fd.Type.Params.List {
+		for _, n := range f.Names {
+			ps = append(ps, n.Name)
+		}
+	}
+	return ps
+}
+
+// inline evaluates `f` on the body of a one-expression helper with its parameters bound to the
+// translations (or constant values) of the arguments of `call`.
+func (x *castX) inline(call *ast.CallExpr, f func(body ast.Expr) (string, bool)) (string, bool) {
+	fd, body := x.helper(call.Fun)
+	if fd == nil || x.depth >= 3 {
+		return "", false
+	}
+	ps := paramNames(fd)
+	if len(ps) != len(call.Args) {
+		return "", false
+	}
+	nb, ncb := map[string]string{}, map[string]string{}
+	for i, a := range call.Args {
+		if c, ok := x.constInt(a); ok {
+			ncb[ps[i]] = c
+			continue
+		}
+		if e, ok := x.expr(a); ok {
+			nb[ps[i]] = e
+			continue
+		}
+		return "", false
+	}
+	ob, ocb := x.binds, x.cbinds
+	x.binds, x.cbinds = nb, ncb
+	x.depth++
+	r, ok := f(body)
+	x.depth--
+	x.binds, x.cbinds = ob, ocb
+	return r, ok
 }
 
 func (x *castX) constInt(e ast.Expr) (string, bool) {
+	if id, ok := ast.Unparen(e).(*ast.Ident); ok {
+		if c, ok := x.cbinds[id.Name]; ok {
+			return c, true
+		}
+	}
 	tv, ok := x.p.info.Types[e]
 	if !ok || tv.Value == nil {
 		return "", false
@@ -170,14 +297,17 @@ func (x *castX) expr(e ast.Expr) (string, bool) {
 	e = ast.Unparen(e)
 	switch n := e.(type) {
 	case *ast.Ident:
+		if b, ok := x.binds[n.Name]; ok {
+			return b, true
+		}
+		if x.depth > 0 {
+			return "", false // inside an inlined helper only its parameters are in scope
+		}
 		switch n.Name {
 		case "val":
 			return ".val", true
 		case "v":
 			return ".parsed", true
-		}
-		if b, ok := x.binds[n.Name]; ok {
-			return b, true
 		}
 		return "", false
 	case *ast.BinaryExpr:
@@ -221,6 +351,9 @@ func (x *castX) expr(e ast.Expr) (string, bool) {
 			}
 			switch tname {
 			case "float64":
+				if atv, ok := x.p.info.Types[arg]; ok && atv.Type != nil && atv.Type.String() == "float32" {
+					return "(.widen " + inner + ")", true // exact; written back as .toF64 outside comparisons
+				}
 				return "(.toF64 " + inner + ")", true
 			case "float32":
 				return "(.toF32 " + inner + ")", true
@@ -307,6 +440,9 @@ var cmpOps = map[token.Token]string{token.LSS: ".lt", token.LEQ: ".le", token.GT
 func (x *castX) guard(e ast.Expr) (string, bool) {
 	e = ast.Unparen(e)
 	switch n := e.(type) {
+	case *ast.CallExpr:
+		// a boolean one-expression helper of the package, e.g. inRange(val, lo, hi)
+		return x.inline(n, x.guard)
 	case *ast.UnaryExpr:
 		if n.Op == token.NOT {
 			if a, ok := x.guard(n.X); ok {
@@ -329,6 +465,11 @@ func (x *castX) guard(e ast.Expr) (string, bool) {
 			if op, ok := cmpOps[n.Op]; ok {
 				if c, ok := x.constInt(n.Y); ok {
 					if l, ok := x.expr(n.X); ok {
+						// comparing a float32 widened to float64 with a constant is the exact comparison the
+						// model makes anyway (values are decoded exactly): the widening is dropped
+						if strings.HasPrefix(l, "(.widen ") && strings.HasSuffix(l, ")") {
+							l = l[len("(.widen ") : len(l)-1]
+						}
 						return fmt.Sprintf("(.cmp %s %s %s)", op, l, lint(c)), true
 					}
 				}
@@ -355,7 +496,33 @@ func (x *castX) failStmt(s ast.Stmt) (string, bool) {
 		return "", false
 	}
 	call, ok := r.Results[1].(*ast.CallExpr)
-	if !ok || x.p.text(call.Fun) != "fmt.Errorf" || len(call.Args) < 2 {
+	if !ok {
+		return "", false
+	}
+	if fd, body := x.helper(call.Fun); fd != nil {
+		// an error constructor of the package: func(sentinel error, …) error { return fmt.Errorf("%w…", sentinel, …) }
+		inner, ok := body.(*ast.CallExpr)
+		if !ok || x.p.text(inner.Fun) != "fmt.Errorf" || len(inner.Args) < 2 {
+			return "", false
+		}
+		tv, ok := x.p.info.Types[inner.Args[0]]
+		if !ok || tv.Value == nil || !strings.HasPrefix(constant.StringVal(tv.Value), "%w") {
+			return "", false
+		}
+		pid, ok := inner.Args[1].(*ast.Ident)
+		if !ok {
+			return "", false
+		}
+		for i, pn := range paramNames(fd) {
+			if pn == pid.Name && i < len(call.Args) {
+				if id, ok := call.Args[i].(*ast.Ident); ok && strings.HasPrefix(id.Name, "Err") {
+					return id.Name, true
+				}
+			}
+		}
+		return "", false
+	}
+	if x.p.text(call.Fun) != "fmt.Errorf" || len(call.Args) < 2 {
 		return "", false
 	}
 	tv, ok := x.p.info.Types[call.Args[0]]
@@ -527,8 +694,11 @@ func (x *castX) guardedShape(body []ast.Stmt) (g, sent, e string, ok bool) {
 func (x *castX) branch(body []ast.Stmt) string {
 	unknown := func() string {
 		txt := x.p.stmtsText(body)
-		if id, ok := x.specials[txt]; ok {
+		if id, ok := x.specials[x.p.canonText(body)]; ok {
 			return "(.special " + lstr(id) + ")"
+		}
+		if os.Getenv("EXTRACT_DUMP_CANON") != "" {
+			fmt.Fprintln(os.Stderr, "CANON:", x.p.canonText(body))
 		}
 		return "(.unknown " + lstr(txt) + ")"
 	}
@@ -770,6 +940,9 @@ func (x *castX) binFns() []string {
 			if !ok {
 				continue
 			}
+			if !strings.HasSuffix(fd.Name.Name, "ToBytes") && !strings.HasSuffix(fd.Name.Name, "FromBytes") {
+				continue // helpers (error constructors …) are inlined where they are used
+			}
 			rows = append(rows, fmt.Sprintf("  (%s, %s)", lstr(fd.Name.Name), x.binFn(fd)))
 		}
 	}
@@ -783,7 +956,13 @@ func (x *castX) simplify(ss []ast.Stmt) []ast.Stmt {
 		if ifs, ok := s.(*ast.IfStmt); ok && ifs.Init == nil {
 			if tv, ok := x.p.info.Types[ifs.Cond]; ok && tv.Value != nil && tv.Value.Kind() == constant.Bool {
 				if constant.BoolVal(tv.Value) {
-					out = append(out, x.simplify(ifs.Body.List)...)
+					in := x.simplify(ifs.Body.List)
+					out = append(out, in...)
+					if len(in) > 0 {
+						if _, isRet := in[len(in)-1].(*ast.ReturnStmt); isRet {
+							return out // what follows is unreachable
+						}
+					}
 				} else if blk, ok := ifs.Else.(*ast.BlockStmt); ok {
 					out = append(out, x.simplify(blk.List)...)
 				}
@@ -998,8 +1177,9 @@ func main() {
 	}
 	b.WriteString("/-- initial value of cast.TimeStringFormat -/\ndef timeStringFormat : String := " + lstr(tsf) + "\n\n")
 	b.WriteString("end Jl.Gen\n")
-	writeIfChanged(filepath.Join(*out, "CastTable.lean"), b.String())
-	nunk := strings.Count(b.String(), ".unknown")
+	castTable := strings.ReplaceAll(b.String(), "(.widen ", "(.toF64 ")
+	writeIfChanged(filepath.Join(*out, "CastTable.lean"), castTable)
+	nunk := strings.Count(castTable, ".unknown")
 	fmt.Printf("Gen/CastTable.lean: %d casters, %d unknown\n", len(x.casters()), nunk)
 
 	jp, err := loadPkg(filepath.Join(*repo, "pkg/jsonline"), "github.com/cgi-fr/jsonline/pkg/jsonline")
